@@ -69,6 +69,7 @@ type r2parseOperandRule struct {
 	loopBuild map[*types.Func]bool            // functions called in the clauses of the climbing loop
 	wrap      map[*types.Func]*r2parseWrapper
 	family    map[*ast.FuncDecl]bool // the climbing method, its transparent wrappers, their first-operand parsers
+	curDom    *pxOpMap               // conversion table applied by the function being classified (infix / assignment)
 	aggs      map[string]*r2parseSlotAgg
 	order     []string
 }
@@ -276,6 +277,7 @@ func r2parseOperandSource(e *r2parseEngine) []Obligation {
 				selectedByE = R.family[fd]
 			}
 			class := R.classOf(fd)
+			R.curDom = R.domOf(fd)
 			run := e.newRun(fd, cx.consts)
 			slot := func(st *r2parseState, name string, pos token.Pos, v *r2parseVal) {
 				if fd == e.exprFd && v.k == r2parseCall && v.call != nil && v.idx == 0 && v.call.Pos() < e.loop.Pos() &&
@@ -476,8 +478,10 @@ func (R *r2parseOperandRule) checkPower(class string, pv *r2parseVal) (bool, str
 		case pv.k != r2parsePrecV:
 			return false, fmt.Sprintf("the operand power %s is not read from <current token>.Kind.Prec()", pv)
 		case pv.idx != 1:
-			return false, "the right operand is parsed with the operator's LEFT power (result #1 of Prec): a following operator of the same level is refused/taken by the wrong call and the associativity of the level flips"
-		case pv.at == nil || pv.at.U != 0:
+			return false, "the right operand is parsed with the operator's LEFT power (result #1 of Prec), not its right power; " + R.flipWitness()
+		case pv.at != nil && pv.at.off == -1 && pv.at.D == 1 && pv.at.U == 1:
+			// read from the previous token after exactly the operator was consumed: the operator's power
+		case pv.at == nil || pv.at.U != 0 || pv.at.off != 0:
 			return false, fmt.Sprintf("the operand power is read from the cursor after up to %d token(s) were consumed: it is the power of a token FOLLOWING the operator", pv.at.U)
 		}
 		return true, "expression(right power of the operator, read before it is consumed)"
@@ -732,4 +736,69 @@ func (R *r2parseOperandRule) checkLoop(st *r2parseState, results []*r2parseVal) 
 	if okStart {
 		a.notes["lhs' = "+iter.fn.Name()+"(start of the expression, lhs)"] = true
 	}
+}
+
+// domOf: the infix / assignment conversion table fd applies (nil: none).
+func (R *r2parseOperandRule) domOf(fd *ast.FuncDecl) *pxOpMap {
+	e := R.e
+	var dom *pxOpMap
+	ast.Inspect(fd.Body, func(n ast.Node) bool {
+		if call, ok := n.(*ast.CallExpr); ok && len(call.Args) == 1 {
+			switch CalleeOf(e.info, call) {
+			case R.infixMap.fn:
+				dom = R.infixMap
+			case R.assignMap.fn:
+				dom = R.assignMap
+			}
+		}
+		return true
+	})
+	return dom
+}
+
+// flipWitness evaluates the climbing rule on every ordered pair (operator of the
+// builder's table, following operator) with the right and with the left power
+// as the operand's minimum and names the pairs whose grouping differs.
+func (R *r2parseOperandRule) flipWitness() string {
+	px := R.e.px
+	if R.curDom == nil {
+		return "the operand ends at the wrong operator for every following operator whose left power lies between the two numbers"
+	}
+	var firsts, seconds []string
+	for k := range R.curDom.m {
+		if p, ok := R.table[k]; ok && p.l != 0 {
+			firsts = append(firsts, k)
+		}
+	}
+	for k, p := range R.table {
+		if p.l != 0 {
+			seconds = append(seconds, k)
+		}
+	}
+	sort.Strings(firsts)
+	sort.Strings(seconds)
+	var ex []string
+	n := 0
+	for _, k1 := range firsts {
+		for _, k2 := range seconds {
+			p1, p2 := R.table[k1], R.table[k2]
+			withRight, withLeft := p2.l > p1.r, p2.l > p1.l
+			if withRight == withLeft {
+				continue
+			}
+			n++
+			if len(ex) < 4 {
+				o1, o2 := px.display[k1], px.display[k2]
+				good, bad := fmt.Sprintf("(a %s b) %s c", o1, o2), fmt.Sprintf("a %s (b %s c)", o1, o2)
+				if withRight {
+					good, bad = bad, good
+				}
+				ex = append(ex, fmt.Sprintf("`a %s b %s c` is %s by the table (%s right %d, %s left %d) but is built as %s", o1, o2, good, o1, p1.r, o2, p2.l, bad))
+			}
+		}
+	}
+	if n == 0 {
+		return "with today's table no operator pair changes its grouping, but the tree then depends on the LEFT column where the argument of DESIGN Appendix C needs the right one"
+	}
+	return fmt.Sprintf("%d ordered operator pair(s) change their grouping: %s", n, strings.Join(ex, "; "))
 }
